@@ -107,8 +107,12 @@ Val(t, env) ==
       [] OTHER -> <<>>
 \* the text souffle writes for a value of type ty in an output file
 Txt(v, ty) == CASE ty = "i" -> ToString(v) [] ty = "u" -> UDecimal(v) [] ty = "s" -> v
+\* a shape kind: a prefix operator application as the left operand of `^` (the one place where a prefix application
+\* needs parentheses around itself: `^` binds tighter than the prefix operators)
+PrefixUnderExp == "functor:prefix-operand-of-exp"
 RECURSIVE OpsOf(_)
 OpsOf(t) == IF t.k = "fn" THEN {t.kind} \cup UNION {OpsOf(t.a[i]) : i \in 1..Len(t.a)}
+                               \cup (IF t.sym = "^" /\ t.a[1].k = "fn" /\ t.a[1].form = "prefix" THEN {PrefixUnderExp} ELSE {})
             ELSE IF t.k = "as" THEN OpsOf(t.a[1]) ELSE {}
 RECURSIVE NOps(_)
 NOps(t) == IF t.k = "fn" THEN 1 + (IF Len(t.a) = 1 THEN NOps(t.a[1]) ELSE NOps(t.a[1]) + NOps(t.a[2])) ELSE 0
@@ -160,7 +164,9 @@ EnvLit(ty, n) == CASE ty = "i" -> N(Env(ty)[n])
                    [] ty = "s" -> S(Env(ty)[n])
                    [] ty = "f" -> L(CASE n = "x" -> "7.5" [] n = "y" -> "3.0" [] n = "z" -> "2.0" [] n = "w" -> "5.25", "f", 0)
 
-Probe(kind, variant, items, expect) == [kind |-> kind, variant |-> variant, items |-> items, expect |-> expect]
+\* uses: further construct kinds (beyond the base kinds) the probe cannot avoid
+ProbeU(kind, variant, items, expect, uses) == [kind |-> kind, variant |-> variant, items |-> items, expect |-> expect, uses |-> uses]
+Probe(kind, variant, items, expect) == ProbeU(kind, variant, items, expect, {})
 Rows(rel, rows) == <<[rel |-> rel, rows |-> rows]>>
 
 \* o(E) :- a(x,y,z).  with a(7,3,2): the standard shape of an expression probe; ty operand type, rty result type
@@ -203,6 +209,9 @@ FunctorProbes(p) ==
     \o Flat([i \in 1..Len(CallOps2) |-> LET o == CallOps2[i] IN
           [j \in 1..Len(TySeq(o)) |-> LET ty == TySeq(o)[j] IN
              ExprProbe(p, o.kind, ty \o "3", ty, ty, Fn(o, ty, <<V("x"), V("y"), V("z")>>, FALSE))]])
+    \o [i \in 1..Len(PrefixOps) |->
+          LET e == Fn(InfixOps[15], "i", <<Fn(PrefixOps[i], "i", <<V("x")>>, TRUE), V("z")>>, FALSE) IN
+          ProbeU(PrefixUnderExp, PrefixOps[i].sym, ExprItems(p, "i", "i", e), ExprExpect(p, "i", "i", e), OpsOf(e))]
     \o << ExprProbe(p, "functor:cat", "2", "s", "s", Call("cat", "CAT", <<V("x"), V("y")>>)),
           ExprProbe(p, "functor:cat", "3", "s", "s", Call("cat", "CAT", <<V("x"), V("y"), S("-")>>)),
           ExprProbe(p, "functor:strlen", "s", "s", "i", Call("strlen", "STRLEN", <<V("x")>>)),
